@@ -2,6 +2,7 @@ package interp
 
 import (
 	"fmt"
+	"strconv"
 	"go/types"
 	"strings"
 
@@ -69,6 +70,8 @@ var loggerRecv = map[string]bool{
 	"github.com/youzan/ZanRedisDB/common.MergeLogger":  true,
 	"github.com/youzan/ZanRedisDB/common.defaultLogger": true,
 	"github.com/youzan/ZanRedisDB/common.zapLogger":    true,
+	"github.com/youzan/ZanRedisDB/metric.WriteStats":   true,
+	"github.com/youzan/ZanRedisDB/metric.TopNHot":      true,
 }
 
 func recvName(fn *ssa.Function) string {
@@ -254,6 +257,21 @@ func buildStubs() map[string]stubFn {
 	m["vsym.MapOrder"] = func(in *Interp, fn *ssa.Function, args []Value) Value {
 		in.opts.MapReverse = termArg(args[0]).C == 1
 		return nil
+	}
+	m["vsym.SymbolicOnly"] = func(in *Interp, fn *ssa.Function, args []Value) Value {
+		in.res.SymbolicOnly = true
+		return in.ctx.True
+	}
+	m["vsym.NoteBool"] = func(in *Interp, fn *ssa.Function, args []Value) Value {
+		// a fact computed by the symbolic run (concrete on this path) that the native replay reads back
+		t := termArg(args[1])
+		if !t.IsConst() {
+			panic(unmodelled{"vsym.NoteBool of a symbolic value"})
+		}
+		name := fmt.Sprintf("%s#%d", in.concStr(args[0], "note name"), in.seq)
+		in.seq++
+		in.inputs = append(in.inputs, inputRec{name, "note", in.ctx.BVConst(t.C, 64)})
+		return t
 	}
 	m["vsym.Symbolic"] = func(in *Interp, fn *ssa.Function, args []Value) Value {
 		return in.ctx.BoolConst(!in.opts.ConcreteMode)
@@ -478,6 +496,51 @@ func buildStubs() map[string]stubFn {
 	m["(*strings.Builder).grow"] = zeroStub
 	m["(*strings.Builder).Grow"] = zeroStub
 
+	// ---- strings.ToLower / ToUpper: exact on ASCII; non-ASCII input ends the path as an engine-imposed bound ----
+	caseMap := func(lower bool) stubFn {
+		return func(in *Interp, fn *ssa.Function, args []Value) Value {
+			s := args[0].(*Str)
+			c := in.ctx
+			ascii := c.True
+			for _, b := range s.b {
+				ascii = c.And(ascii, c.ULT(b, c.BVConst(0x80, 8)))
+			}
+			if !in.branch(ascii) {
+				in.res.Assumes["engine: strings.ToLower/ToUpper modelled for ASCII input only"]++
+				panic(pathEnd{"assume"})
+			}
+			out := make([]*sym.Term, len(s.b))
+			for i, b := range s.b {
+				lo, hi, d := uint64('A'), uint64('Z'), uint64(32)
+				if !lower {
+					lo, hi = 'a', 'z'
+				}
+				in := c.And(c.ULE(c.BVConst(lo, 8), b), c.ULE(b, c.BVConst(hi, 8)))
+				if lower {
+					out[i] = c.Ite(in, c.Add(b, c.BVConst(d, 8)), b)
+				} else {
+					out[i] = c.Ite(in, c.Sub(b, c.BVConst(d, 8)), b)
+				}
+			}
+			return &Str{out}
+		}
+	}
+	m["strings.ToLower"] = caseMap(true)
+	m["strings.ToUpper"] = caseMap(false)
+	m["bytes.ToLower"] = func(in *Interp, fn *ssa.Function, args []Value) Value {
+		r := caseMap(true)(in, fn, []Value{&Str{in.sliceBytes(args[0].(Slice))}}).(*Str)
+		return in.bytesToSlice(r.b)
+	}
+
+	// error texts built from (possibly symbolic) input are opaque
+	m["(*strconv.NumError).Error"] = func(in *Interp, fn *ssa.Function, args []Value) Value { return in.mkStr("strconv: <numerror>") }
+	m["strconv.Quote"] = func(in *Interp, fn *ssa.Function, args []Value) Value {
+		if cs, ok := args[0].(*Str).Concrete(); ok {
+			return in.mkStr(strconv.Quote(cs))
+		}
+		return in.mkStr("\"<quoted>\"")
+	}
+
 	// ---- math ----
 	m["math.Float64bits"] = func(in *Interp, fn *ssa.Function, args []Value) Value {
 		return in.floatBits(termArg(args[0]))
@@ -701,6 +764,23 @@ func buildStubs() map[string]stubFn {
 	m["math/rand.Int31n"] = randIntn(0)
 	m["math/rand.Seed"] = zeroStub
 	m["(*math/rand.Rand).Seed"] = zeroStub
+
+	// ---- files: durability calls succeed; the harness supplies the writer and observes what reaches it ----
+	nilErr := func(in *Interp, fn *ssa.Function, args []Value) Value { return Iface{} }
+	m["github.com/youzan/ZanRedisDB/pkg/fileutil.Fdatasync"] = func(in *Interp, fn *ssa.Function, args []Value) Value {
+		in.res.Stubs["env: fdatasync calls"]++
+		in.fsyncCalls++
+		return Iface{}
+	}
+	m["github.com/youzan/ZanRedisDB/pkg/fileutil.Fsync"] = m["github.com/youzan/ZanRedisDB/pkg/fileutil.Fdatasync"]
+	m["(*os.File).Sync"] = nilErr
+	m["(*os.File).Seek"] = func(in *Interp, fn *ssa.Function, args []Value) Value {
+		// position of an opaque file: offset 0 (below every size threshold)
+		return Tuple{in.ctx.BVConst(0, 64), Iface{}}
+	}
+	m["vsym.FsyncCalls"] = func(in *Interp, fn *ssa.Function, args []Value) Value {
+		return in.ctx.BVConst(uint64(in.fsyncCalls), 64)
+	}
 
 	// settings: no overwrite file present (soft/static settings keep their defaults)
 	m["github.com/youzan/ZanRedisDB/settings.overwriteSettingsWithFile"] = zeroStub
